@@ -10,6 +10,10 @@
 #include "common.h"
 #include "mpsc_fifo.h"
 
+/* VR_BIAS=.data:<k> (same k here): abstract item v travels as payload word v - k, so item k is a
+ * NULL payload in the real code; the runtime prints the data cells plus k again */
+static long payload_bias;
+
 static mpsc_fifo_t fifo;
 #define MAXN 4096
 static mpsc_fifo_node_t* freelist[MAXN];
@@ -39,7 +43,7 @@ static void do_pop(void) {
   mpsc_fifo_node_t* r = mpsc_fifo_trypop(&fifo);
   long v = 0;
   if (r) {
-    v = (long)r->data;
+    v = (long)r->data + payload_bias;
     put_node(r);
   }
   vr_note("ret pop %ld", v);
@@ -49,7 +53,7 @@ static void do_peek(void) {
   vr_note("call peek");
   void* d = NULL;
   int r = mpsc_fifo_peek(&fifo, &d);
-  vr_note("ret peek %ld", r ? (long)d : 0L);
+  vr_note("ret peek %ld", r ? (long)d + payload_bias : 0L);
 }
 
 static void do_op(int t, const char* op) {
@@ -57,7 +61,7 @@ static void do_op(int t, const char* op) {
     long v = atol(op + 1);
     vr_note("call push %ld", v);
     mpsc_fifo_node_t* n = get_node();
-    n->data = (void*)v;
+    n->data = (void*)(v - payload_bias);
     mpsc_fifo_push(&fifo, n);
     vr_note("ret push 1");
   } else if (op[0] == 'o' && t == 0) {
@@ -74,6 +78,7 @@ int main(int argc, char** argv) {
   if (argc < 3) return 2;
   int spare = atoi(argv[1]);
   vh_parse(argv[2]);
+  { const char* b = getenv("VR_BIAS"); const char* c = b ? strrchr(b, ':') : 0; payload_bias = c ? atol(c + 1) : 0; }
   VH_DIRTY(fifo);
   if (!mpsc_fifo_init(&fifo)) return 2;
   name_node(fifo.head); /* the initial stub is n1 */
@@ -90,7 +95,7 @@ int main(int argc, char** argv) {
   for (;;) {
     vr_note("call pop");
     mpsc_fifo_node_t* r = mpsc_fifo_trypop(&fifo);
-    long v = r ? (long)r->data : 0;
+    long v = r ? (long)r->data + payload_bias : 0;
     vr_note("ret pop %ld", v);
     if (!r) break;
   }
